@@ -477,7 +477,20 @@ fn flip_case(rng: &mut Rng, s: &str) -> String {
 /// a Host value related to the base domains in interesting ways
 fn rand_host(rng: &mut Rng, bases: &[String], bucket: &str) -> String {
     let base = if bases.is_empty() { "example.com".to_owned() } else { bases[rng.below(bases.len() as u64) as usize].clone() };
-    match rng.below(24) {
+    match rng.below(27) {
+        24..=26 => {
+            // a host outside the base domains (CNAME style), with or without a port: the port is no part of the bucket
+            let name = match rng.below(6) {
+                0 => "static.example.com".to_owned(),
+                1 => flip_case(rng, "Static.Example.com"),
+                2 => bucket.to_owned(),
+                3 => format!("{bucket}.cname.test"),
+                4 => format!("x{}", base.split(':').next().unwrap_or("")),
+                _ => rand_domain_valid(rng).split(':').next().unwrap_or("").to_owned(),
+            };
+            let port = rng.pick(&["", ":8080", ":80", ":0", ":65535", ":65536", ":0080", ":9000", ":443", ":1", ":+80", ":"]);
+            format!("{name}{port}")
+        }
         0..=2 => base,
         3..=8 => format!("{bucket}.{base}"),
         9 => format!("{bucket}{base}"),
@@ -728,9 +741,11 @@ fn generate(rng: &mut Rng, n: u64, tier: &str, emit: &mut dyn FnMut(Vec<String>)
                 // which style the client uses
                 let vhost_style = !bases.is_empty() && rng.chance(1, 2);
                 let host: Option<String> = if vhost_style {
-                    Some(match rng.below(8) {
+                    Some(match rng.below(9) {
                         0 => rand_host(rng, &bases, &bk),
                         1 => flip_case(rng, &format!("{bk}.{}", bases[0])),
+                        // CNAME style: the host itself is the bucket, the port is no part of it
+                        8 => format!("{bk}{}{}", rng.pick(&["", ".cname.test"]), rng.pick(&["", ":8080", ":80", ":65535"])),
                         _ => format!("{bk}.{}", bases[rng.below(bases.len() as u64) as usize]),
                     })
                 } else {
